@@ -231,4 +231,5 @@ def main(argv=None):
 
 
 if __name__ == '__main__':
-    main()
+    from common import run_guarded
+    run_guarded('C02', main)
